@@ -5,6 +5,7 @@ import (
 	"go/ast"
 	"go/token"
 	"go/types"
+	"strings"
 )
 
 func init() {
@@ -283,4 +284,124 @@ func ruleC06During(p *Prog, r *Res) {
 			}
 		}
 	}
+}
+
+// ---- C06-d: a tag is evaluated only after the tags it references are decided ----
+
+func init() {
+	register("C06",
+		"C06-d (dependency order): a tag's definition is evaluated only when every tag it references is decided — in startTaggingJobIfNeeded the go statement that starts updateTagJob, and in View.prefetchTags the SearchStreams call, are dominated within their loop iteration by a range over the tag's references whose body skips the tag (continue) when a referenced tag is still uncertain. Otherwise the evaluation inlines a stale or undecided answer of the referenced tag and the result is published as decided.",
+		ruleC06Order)
+}
+
+func ruleC06Order(p *Prog, r *Res) {
+	const rule = "C06-d dependency-order"
+	r.Rule(rule + ": evaluation of a tag waits for the tags it references")
+	refTags := p.Method("manager", "tag", "referencedTags")
+	n := 0
+	check := func(fkey string, isEval func(f *Fn, n ast.Node) bool, wantGuards int, what string) {
+		f := p.Fn(fkey)
+		if f == nil {
+			return
+		}
+		info := f.Pkg.TypesInfo
+		fl := p.Flow(f)
+		// guard ranges: range over references whose body contains a `continue` guarded by an uncertainty test
+		var guardX []ast.Node
+		ast.Inspect(f.Body(), func(x ast.Node) bool {
+			rs, ok := x.(*ast.RangeStmt)
+			if !ok {
+				return true
+			}
+			isRefs := false
+			xe := ast.Unparen(rs.X)
+			if c, ok := xe.(*ast.CallExpr); ok && p.Callee(f.Pkg, c) == refTags {
+				isRefs = true
+			}
+			if se, ok := xe.(*ast.SelectorExpr); ok && (se.Sel.Name == "MainTags" || se.Sel.Name == "SubQueryTags") {
+				isRefs = true
+			}
+			if obj := identObj(info, xe); obj != nil {
+				// local holding referencedTags()
+				ast.Inspect(f.Body(), func(y ast.Node) bool {
+					if as, ok := y.(*ast.AssignStmt); ok {
+						for i, l := range as.Lhs {
+							if sameObj(info, l, obj) && i < len(as.Rhs) {
+								if c, ok := ast.Unparen(as.Rhs[i]).(*ast.CallExpr); ok && p.Callee(f.Pkg, c) == refTags {
+									isRefs = true
+								}
+							}
+						}
+					}
+					return true
+				})
+			}
+			if !isRefs {
+				return true
+			}
+			skips := false
+			ast.Inspect(rs.Body, func(y ast.Node) bool {
+				if ifs, ok := y.(*ast.IfStmt); ok {
+					cond := types.ExprString(ifs.Cond)
+					if strings.Contains(cond, "Uncertain") || strings.Contains(cond, "uncertainTags") || strings.Contains(cond, "ok") {
+						ast.Inspect(ifs.Body, func(z ast.Node) bool {
+							if b, ok := z.(*ast.BranchStmt); ok && b.Tok == token.CONTINUE && b.Label != nil {
+								skips = true
+							}
+							return true
+						})
+					}
+				}
+				return true
+			})
+			if skips {
+				guardX = append(guardX, rs.X)
+			}
+			return true
+		})
+		evals := fl.Find(func(nd ast.Node) bool { return isEval(f, nd) })
+		for _, e := range evals {
+			n++
+			// every path from the head of the enclosing outer loop iteration to the evaluation passes the guard range(s)
+			var starts []Pt
+			for _, lp := range fl.Loops() {
+				if lp.Header != nil && lp.Blocks[e.B] {
+					if _, isRange := lp.Stmt.(*ast.RangeStmt); isRange {
+						for _, s := range lp.Header.Succs {
+							if lp.Blocks[s] {
+								starts = append(starts, Pt{s, 0})
+							}
+						}
+					}
+				}
+			}
+			if len(starts) == 0 {
+				starts = []Pt{fl.Entry()}
+			}
+			passed := 0
+			for _, g := range guardX {
+				gx := g
+				res := fl.Reach(starts, func(m ast.Node) bool { return m == fl.node(e) }, func(m ast.Node) bool { return m == gx })
+				if !res.Found {
+					passed++
+				}
+			}
+			r.Check(passed >= wantGuards, rule, fkey+" "+what, p.Pos(fl.node(e)), fmt.Sprintf("%d guarding range(s) over the tag's references dominate the evaluation within the iteration", passed),
+				fmt.Sprintf("only %d of the %d required reference-guard loops lie on every path to the evaluation: a tag can be evaluated while a tag it references is still undecided, and the answer computed from the stale reference is published as decided", passed, wantGuards))
+		}
+	}
+	check("manager.Manager.startTaggingJobIfNeeded", func(f *Fn, nd ast.Node) bool {
+		g, ok := nd.(*ast.GoStmt)
+		if !ok {
+			return false
+		}
+		fn := p.Callee(f.Pkg, g.Call)
+		return fn != nil && fn.Name() == "updateTagJob"
+	}, 1, "starts updateTagJob")
+	check("manager.View.prefetchTags", func(f *Fn, nd ast.Node) bool {
+		return nodeCalls(p, f, nd, func(fn *types.Func, _ *ast.CallExpr) bool {
+			return fn.Name() == "SearchStreams" && fn.Pkg() != nil && strings.HasSuffix(fn.Pkg().Path(), "/index")
+		})
+	}, 2, "evaluates a tag")
+	r.Floor(rule, 2, n)
 }
